@@ -735,3 +735,66 @@ Print Assumptions C14_columns_resolve.
 Print Assumptions C14_columns_same_lua.
 Print Assumptions C14_use_names_separatedb_sound.
 Print Assumptions C14_columns_example.
+
+(* ---- EmptyStatements (Resolve/Empties.v, EmptiesProofs.v): blank lines and comment-only lines ----
+   C14_resolve_drops_empties  removing every EmptyStatement from every statement list of the parser's AST (module
+                      level, function bodies, blocks, branches of if / case; the single-statement body of a loop stays)
+                      does not change the result of name resolution at all.
+   C14_empty_statements_same_lua  the whole pipeline gives the same result for `ast` and `drop_empties ast`;
+   C14_parens_and_empties_same_lua  two ASTs with equal normal forms drop_empties (strip_parens _) have the same pipeline
+                      result (every verdict, every byte);
+   C14_layout_resolve / C14_layout_same_lua  the relational form with the columns (C14_columns_*), now modulo
+                      EmptyStatements too: same_modulo_layout a1 a2 := the ASTs are equal after removing Parenthesis nodes
+                      and EmptyStatements and forgetting the columns and last line of every span. *)
+From Sylt Require Resolve.Empties Resolve.EmptiesProofs.
+
+Theorem C14_resolve_drops_empties : forall fl ast,
+  Sylt.Resolve.Resolver.resolve fl (Sylt.Resolve.Empties.drop_empties ast) = Sylt.Resolve.Resolver.resolve fl ast.
+Proof. exact Sylt.Resolve.EmptiesProofs.resolve_drops_empties. Qed.
+
+Theorem C14_empty_statements_same_lua : forall fl tgt fuel_tc fuel req ast,
+  Sylt.Resolve.ParensLua.pipeline fl tgt fuel_tc fuel req (Sylt.Resolve.Empties.drop_empties ast)
+  = Sylt.Resolve.ParensLua.pipeline fl tgt fuel_tc fuel req ast.
+Proof. exact Sylt.Resolve.ParensLua.empties_same_lua. Qed.
+
+Theorem C14_parens_and_empties_same_lua : forall fl tgt fuel_tc fuel req a1 a2,
+  Sylt.Resolve.Empties.drop_empties (Sylt.Resolve.Parens.strip_parens a1)
+  = Sylt.Resolve.Empties.drop_empties (Sylt.Resolve.Parens.strip_parens a2) ->
+  Sylt.Resolve.ParensLua.pipeline fl tgt fuel_tc fuel req a1 = Sylt.Resolve.ParensLua.pipeline fl tgt fuel_tc fuel req a2.
+Proof. exact Sylt.Resolve.ParensLua.parens_and_empties_same_lua. Qed.
+
+Theorem C14_layout_resolve : forall fl a1 a2,
+  Sylt.Resolve.ColumnsLua.same_modulo_layout a1 a2 ->
+  Sylt.Resolve.ColumnsLua.use_names_separated (Sylt.Resolve.ColumnsLua.layout_nf a1) ->
+  Sylt.Resolve.ColumnsLua.use_names_separated (Sylt.Resolve.ColumnsLua.layout_nf a2) ->
+  match Sylt.Resolve.Resolver.resolve fl a1, Sylt.Resolve.Resolver.resolve fl a2 with
+  | Sylt.Resolve.Resolver.Ok r1, Sylt.Resolve.Resolver.Ok r2 => Sylt.Back.SpanProofs.same_modulo_spans r1 r2
+  | Sylt.Resolve.Resolver.Err es1, Sylt.Resolve.Resolver.Err es2 =>
+      map Sylt.Resolve.Resolver.e_kind es2 = map Sylt.Resolve.Resolver.e_kind es1
+  | Sylt.Resolve.Resolver.Panic s1, Sylt.Resolve.Resolver.Panic s2 => s1 = s2
+  | Sylt.Resolve.Resolver.OutOfFuel, Sylt.Resolve.Resolver.OutOfFuel => True
+  | _, _ => False
+  end.
+Proof. exact Sylt.Resolve.ColumnsLua.layout_resolve. Qed.
+
+Theorem C14_layout_same_lua : forall fl tgt fuel_tc fuel req a1 a2 r1 l1,
+  Sylt.Resolve.ColumnsLua.same_modulo_layout a1 a2 ->
+  Sylt.Resolve.ColumnsLua.use_names_separated (Sylt.Resolve.ColumnsLua.layout_nf a1) ->
+  Sylt.Resolve.ColumnsLua.use_names_separated (Sylt.Resolve.ColumnsLua.layout_nf a2) ->
+  Sylt.Resolve.Resolver.resolve fl a1 = Sylt.Resolve.Resolver.Ok r1 ->
+  Sylt.Dep.Topo.init_order tgt (Sylt.Syntax.Resolved.r_stmts r1) = Sylt.Dep.Topo.OOk l1 ->
+  exists r2 l2, Sylt.Resolve.Resolver.resolve fl a2 = Sylt.Resolve.Resolver.Ok r2
+    /\ Sylt.Dep.Topo.init_order tgt (Sylt.Syntax.Resolved.r_stmts r2) = Sylt.Dep.Topo.OOk l2
+    /\ forall out1 out2,
+         Sylt.Types.Tc.compile_after_order (Sylt.Back.Emit.backend fuel req) fuel_tc
+           (Sylt.Syntax.Resolved.mkResolved (Sylt.Syntax.Resolved.r_vars r1) l1) = Sylt.Types.Tc.COk out1 ->
+         Sylt.Types.Tc.compile_after_order (Sylt.Back.Emit.backend fuel req) fuel_tc
+           (Sylt.Syntax.Resolved.mkResolved (Sylt.Syntax.Resolved.r_vars r2) l2) = Sylt.Types.Tc.COk out2 ->
+         out1 = out2.
+Proof. exact Sylt.Resolve.ColumnsLua.layout_same_lua. Qed.
+
+Print Assumptions C14_resolve_drops_empties.
+Print Assumptions C14_empty_statements_same_lua.
+Print Assumptions C14_parens_and_empties_same_lua.
+Print Assumptions C14_layout_resolve.
+Print Assumptions C14_layout_same_lua.
